@@ -893,8 +893,42 @@ func c17CheckBuiltFormat(ctx *vfCtx, ver string, tr c17Traits, impl IRoomVersion
 	}
 }
 
+// c17CustomVersion is room version 10 under another name (what SetRoomVersion exists for).
+type c17CustomVersion struct{ IRoomVersion }
+
+func (c17CustomVersion) Version() RoomVersion { return "org.example.c17.custom" }
+
 func c17CheckVersionTable(ctx *vfCtx, c c17VTCase) {
 	ctx.NonTrivial()
+	if c.Version == "*set-room-version*" {
+		// the table follows the registry: a version registered with SetRoomVersion AFTER the table has
+		// been consulted is reported by every view of it (this case comes last: the registry of this
+		// process is changed by it)
+		ctx.Class("registry/set-room-version")
+		base, err := GetRoomVersion("10")
+		if err != nil {
+			ctx.Unjudged("room version 10 is not registered")
+			return
+		}
+		before := len(RoomVersions())
+		stableBefore := len(StableRoomVersions())
+		custom := c17CustomVersion{base}
+		if vfCatch(ctx, "C17/version-table", func() { SetRoomVersion(custom) }) {
+			return
+		}
+		_, inTable := RoomVersions()[custom.Version()]
+		_, inStable := StableRoomVersions()[custom.Version()]
+		got, gerr := GetRoomVersion(custom.Version())
+		switch {
+		case !inTable || len(RoomVersions()) != before+1:
+			ctx.Fail("C17/version-table/registry/registered-version-missing", "after SetRoomVersion(%q) RoomVersions() has %d entries (%d before) and lists it: %v", custom.Version(), len(RoomVersions()), before, inTable)
+		case inStable != custom.Stable() || len(StableRoomVersions()) != stableBefore+1:
+			ctx.Fail("C17/version-table/registry/registered-version-missing/stable", "after SetRoomVersion of a stable version StableRoomVersions() has %d entries (%d before) and lists it: %v", len(StableRoomVersions()), stableBefore, inStable)
+		case gerr != nil || got == nil || !KnownRoomVersion(custom.Version()) || !StableRoomVersion(custom.Version()):
+			ctx.Fail("C17/version-table/registry/registered-version-unknown", "after SetRoomVersion(%q): GetRoomVersion error %v, KnownRoomVersion %v", custom.Version(), gerr, KnownRoomVersion(custom.Version()))
+		}
+		return
+	}
 	if c.Version == "*registry*" {
 		ctx.Class("registry")
 		var got, want, stable []string
@@ -1052,6 +1086,7 @@ func c17EnumVersions(size, shard, nshards int, emit func(c17VTCase)) {
 	}
 	sort.Strings(extra)
 	all = append(all, extra...)
+	all = append(all, "*set-room-version*") // last: it adds to the registry of this process
 	for i, v := range all {
 		if i%nshards == shard {
 			emit(c17VTCase{Version: v})
